@@ -66,20 +66,30 @@ SPEC = dict(
     prop="C32",
     proof_module="SimbodyProofs.C32",
     gen=gen_string_conv,
-    sources=["SimbodyModel/Proto.lean", "SimbodyModel/Gen/StringConv.lean", "SimbodyModel/C32.lean", "SimbodyProofs/C32_lemmas.lean", "SimbodyProofs/C32.lean",
+    sources=["SimbodyModel/Proto.lean", "SimbodyModel/Gen/StringConv.lean", "SimbodyModel/C32.lean", "SimbodyProofs/C32_lemmas.lean", "SimbodyProofs/C32.lean", "SimbodyProofs/C32_history.lean",
              "Drivers/C32.lean"],
     n=dict(quick=1500, thorough=150000),
     rtol=0.0, atol=0.0,
+    lake_targets=["SimbodyProofs.C32_history"],
     rule="fixed tables of boundary literals (signs, exponents, specials, overflow/underflow thresholds, halfway cases) plus records "
          "from VERIF_SEED: literals from a decimal grammar with mutations (padding, trailing/leading junk, inner blanks, truncation), "
          "special spellings in random case, integer/bool strings, String(value) of random doubles/floats/ints/complex (NaN, Inf, "
-         "signed zero, subnormals, extremes, random bit patterns), writeUnformatted/readUnformatted of scalars, complex, Vec, Mat, "
-         "Vector_, Array_<double/Vec3/int> with mutated texts, EncodeString/entity decoding on random strings, random XML trees "
-         "(attributes, text, comments; condensed and preserved white space; compact and indented); distinct = distinct input records",
-    partial="libstdc++ number extraction/insertion and glibc strtod/snprintf are modelled (literal grammar + exact rational rounding) and "
-            "tied by exact correspondence, not verified; String(value) formatting is checked by the contract 'the text denotes the value' "
-            "(the model does not generate %.17g digits); the XML element/attribute/comment tree printer and parser are exercised by the "
-            "correspondence (structure compared after write->read) while the theorems cover escaping/entity decoding and token streams",
+         "signed zero, subnormals, extremes, random bit patterns), writeUnformatted/readUnformatted of 22 shapes (scalars incl. int/bool, "
+         "complex, Vec, Row, Mat incl. complex elements, SymMat, Matrix_ via fillUnformatted, Vector_, RowVector_, Vector_<Vec3>, "
+         "Array_<double/float/int/bool/Vec3>) read into scrambled/empty targets, with mutated texts; EncodeString/entity decoding on "
+         "random strings; random XML trees (attributes with \", ' and both; text; comments; condensed and preserved white space; compact "
+         "and indented strings and writeToFile/readFromFile); distinct = distinct input records",
+    partial="(i) proved about the executed model: template acceptance = 'extraction succeeded and only white space is left'; the current "
+            "tryConvertToDouble/Float/Bool satisfy it (translator-tied), special spellings, rejection of trailing characters (samples + the "
+            "literal-grammar theorems for unsigned decimal literals without exponent); token-stream round trip of fixed aggregates and arrays "
+            "CONDITIONAL on the scalar printer/parser pair (conv (sh v) = some v is a hypothesis, never instantiated); XML escaping/entity "
+            "decoding round trip for strings without '&#x' when white space is kept; file = string path for CR-free values. "
+            "(ii) predicate-only: value -> String -> value for double/float/int/bool/complex (NaN compared as a class: payload/sign of NaN "
+            "not checked), String(value) formatting (contract 'the text denotes the value'; no model of %.17g, digits17_suffice not proved), "
+            "unformatted round trip of every shape, XML tree structure/printer/parser, condensing mode. "
+            "(iii) not covered: unsigned/long/long double/complex<float>, String(T,fmt), negator/conjugate element types, non-resizable "
+            "views, CDATA/mixed content/Unknown nodes, formatted (bracketed) container I/O and operator<</>> of containers; libstdc++/glibc "
+            "number parsing and printing are modelled and tied by exact correspondence, not verified",
     assumptions=["C locale; strings are byte strings without NUL",
                  "white-space-only element values are dropped by TinyXML (TiXmlText::Blank) and are not generated as tree values",
                  "numeric character references above 127 decode to one byte on this tree (encoding detection is dead code); the writer "
